@@ -383,6 +383,19 @@ def section8():
         'C14f': 'operators with the scalars that invite a shortcut (0 for + and -, 1 for * and /), direct and reflected, sum() over one element, tm composed with the identity',
         'C18f': 'lookAt targets ALMOST above / below the viewer (lateral offsets 5e-7, 1e-7, 2e-8)',
         'C19f': 'sinks are bound methods taken afresh for every registration (equal, not identical); a sink counts once however often it is listed',
+        'C01g': '(strengthened from the sub-agent\'s report BEFORE the first run) translations whose components cancel, repeat or vanish in the adjoint identities',
+        'C02g': '(strengthened before the first run) rigid transforms with tiny rotations (1e-9, 1e-7, 5e-7, around 1e-6) for MatrixLog6 and its users',
+        'C06g': '(strengthened before the first run) joint vectors with some joints almost, but not exactly, at zero (4e-6 .. 8e-5)',
+        'C07g': '(strengthened before the first run) after every successful targeted solve the stored joint vector must be the returned one — these solves follow earlier (possibly failed, restarts disabled) solves on the same arm',
+        'C08g': '(strengthened before the first run) ONE float64 torque array is handed to forward dynamics twice: same answer, array unaltered',
+        'C10g': '(strengthened before the first run) move() to bases tilted past 90 degrees',
+        'C04g': 'a pose built from another pose (tm(t), tm(array([t])), copy()) is edited; the source must still mean the same pose, in storage and in use',
+        'C11g': 'the balance is also read through the DEFAULTED queries after a space-frame and after a body-frame statics call, each with its own wrench',
+        'C12g': 'the two-argument form changeFrame(new, old_frame) on an object whose recorded frame already equals the new one',
+        'C16g': 'a direction-dependent distance callback (climbing costs three times descending)',
+        'C18g': 'whole-number screws typed as integers for chainJacobian',
+        'C19g': 'the UDP history closes and re-opens a used endpoint and uses it again',
+        'C20g': 'LaTeX cells are parsed back and compared with the rounded elements; scripted matrices at nd = 0, 1, 3 where rounding and truncation differ, and specials at nd = 0',
         'C11': 'small platforms placed up to 12 from the origin so that cond(invJ) reaches 1e3..1e4 (the upper part of the property\'s range)',
     }
     for d in sorted(glob.glob(os.path.join(V, 'seeded', '*', 'meta.json'))):
@@ -402,7 +415,7 @@ def section8():
         if isinstance(trig, (list, dict)):
             trig = json.dumps(trig)
         trig = trig.replace('|', '\\|').replace('\n', ' ')[:220]
-        out.append('| %s | %s | %s | %s | %s | %s |' % (name, what, trig, first, after, strengthened.get(name, '') if before else ''))
+        out.append('| %s | %s | %s | %s | %s | %s |' % (name, what, trig, first, after, strengthened.get(name, '') if (before or 'BEFORE the first run' in strengthened.get(name, '') or 'before the first run' in strengthened.get(name, '')) else ''))
     out += ['', '### 8.2 Hand-made changes (applied to `/repo`, checked, undone)\n',
             '| property | change | outcome |', '|---|---|---|',
             '| C01 | half-turn pivot index swapped in `MatrixLog3`; minus dropped in `TransInv`; `NearZero` threshold 1e-6 → 1e-3 | all caught (correspondence + round-trip falsifier) |',
